@@ -89,27 +89,27 @@ macro_rules! impl_datatype_hash {
                     // Numerics are converted to bits using the same discriminant
                     Self::Int(v) => {
                         2u8.hash(state);
-                        (v.0 as f64).to_bits().hash(state);
+                        $crate::types::hashable_f64_bits(v.0 as f64).hash(state);
                     }
                     Self::BigInt(v) => {
                         2u8.hash(state);
-                        (v.0 as f64).to_bits().hash(state);
+                        $crate::types::hashable_f64_bits(v.0 as f64).hash(state);
                     }
                     Self::UInt(v) => {
                         2u8.hash(state);
-                        (v.0 as f64).to_bits().hash(state);
+                        $crate::types::hashable_f64_bits(v.0 as f64).hash(state);
                     }
                     Self::BigUInt(v) => {
                         2u8.hash(state);
-                        (v.0 as f64).to_bits().hash(state);
+                        $crate::types::hashable_f64_bits(v.0 as f64).hash(state);
                     }
                     Self::Float(v) => {
                         2u8.hash(state);
-                        (v.0 as f64).to_bits().hash(state);
+                        $crate::types::hashable_f64_bits(v.0 as f64).hash(state);
                     }
                     Self::Double(v) => {
                         2u8.hash(state);
-                        v.0.to_bits().hash(state);
+                        $crate::types::hashable_f64_bits(v.0).hash(state);
                     }
                     Self::Blob(b) => {
                         3u8.hash(state);
